@@ -38,6 +38,9 @@ def bank_cfg(rng, rate=None, kinds=("tri", "fbank", "gabor", "gammatone"), max_f
         lo, hi = 0.0, float(np.floor(nyq))
     if not small:
         nf = int(rng.integers(1, 41))
+    if kind == "vfrealcos":
+        # vf/userbank.py: a bank written against the public LinearFilterBank interface
+        return {"name": kind, "num_filts": nf, "sampling_rate": rate, "widen": float(rng.choice([0.75, 1.5, 3.0]))}
     cfg = {"name": kind, "num_filts": nf, "sampling_rate": rate, "low_hz": lo, "high_hz": hi}
     if kind == "fbank":
         cfg["analytic"] = bool(rng.random() < 0.5)
@@ -66,7 +69,7 @@ def ms_for(samples, rate):
 
 
 def stft_cfg(rng, bank=None, fl=None, fs=None, allow_fs_gt_fl=False):
-    bank = bank or bank_cfg(rng)
+    bank = bank or bank_cfg(rng, kinds=("tri", "fbank", "gabor", "gammatone", "tri", "fbank", "gabor", "gammatone", "vfrealcos"))
     rate = bank["sampling_rate"]
     if fl is None:
         r = rng.random()
@@ -130,6 +133,7 @@ def si_cfg(rng, bank=None, fs=None):
 def build(cfg):
     from pydrobert.speech.alias import alias_factory_subclass_from_arg
     from pydrobert.speech.compute import FrameComputer
+    from . import userbank  # noqa: F401  (registers the user-defined bank's alias)
 
     import copy
 
@@ -139,6 +143,7 @@ def build(cfg):
 def build_bank(cfg):
     from pydrobert.speech.alias import alias_factory_subclass_from_arg
     from pydrobert.speech.filters import LinearFilterBank
+    from . import userbank  # noqa: F401
 
     import copy
 
